@@ -241,6 +241,8 @@ func init() {
 			"{\"u\":\"\u2028x\u2029\",\"q\":\"\\\"\\\\\\n\",\"s\":{\"\U0001F600\":\"\\ud83d\\ude00\",\"l\":\"\\ud800\"}}",
 			`{"a":{"b":"<"},"c":["<",{"d":"&"}]}`,
 			`{}`, `[]`, `[{"<":1},"\u001f>"]`,
+			// duplicate member names: no value oracle applies, the output must still be JSON
+			`{"a":1,"a":2,"b":3}`, `{"x":{"a":1,"a":{"a":2},"b":"<"}}`,
 		}
 		vals := parseAll([]string{`"<"`, `{"&":">"}`, `null`, `[1]`})
 		a := &AlphaCfg{Values: vals, ReplValues: vals[:2]}
